@@ -87,7 +87,8 @@ class Worker:
         # address-space ceiling for non-sanitizer builds (sanitizers reserve terabytes of shadow memory); their
         # runaway allocations are bounded by the monitors' own heap ceilings / the case watchdog instead
         cfg = self.job.get("cfg", "")
-        if cfg.startswith("asan") or cfg.startswith("tsan") or cfg.startswith("portable_asan") or self.job.get("prefix"):
+        sanitized = cfg == "fuzz" or any("-fsanitize=" in f for f in B.CFGS.get(cfg, []))
+        if sanitized or self.job.get("prefix"):
             return None
 
         def f():
